@@ -9,6 +9,8 @@ malformed stream (the same programs cut / garbled).  Everything is drawn from th
 """
 from __future__ import annotations
 
+import re
+
 HEADER = ("from typing import (Any, Callable, Dict, Final, Generic, List, NamedTuple, Optional, Protocol, Tuple,\n"
           "                    Type, TypeVar, Union, overload)\n"
           "from typing_extensions import TypedDict\nimport dataclasses\nimport enum\n\n")
@@ -31,6 +33,248 @@ def defer_cycle(k: int, cls: str = "A") -> str:
     for i in range(1, k + 1):
         out.append(f"    def f{i}(self) -> None:\n        self.x{i} = self.x{i % k + 1}")
     return "\n".join(out) + "\n"
+
+
+# ------------------------------------------------------------------ families that reach the checker's defer sites
+def _indent(src: str, n: int) -> str:
+    pad = " " * n
+    return "".join(pad + l if l.strip() else l for l in src.splitlines(True))
+
+
+UNINFERRED_BASES = {
+    # how the attribute `hook` of Base stays without an inferred type
+    "unreachable": "class Base:\n    def __init__(self) -> None:\n        raise NotImplementedError\n        self.hook = 1\n",
+    "cycle": "class Base:\n    def a(self) -> None:\n        self.hook = self.other\n    def b(self) -> None:\n        self.other = self.hook\n",
+    "late": "class Base:\n    def a(self) -> None:\n        self.hook = later()\n\ndef later():\n    return Base().hook\n",
+    "class-level-unreachable": "import sys\nclass Base:\n    def __init__(self) -> None:\n        sys.exit(1)\n        self.hook = [1]\n",
+}
+OVERRIDES = {
+    "method": "def hook(self) -> int:\n    return 1\n",
+    "property": "@property\ndef hook(self) -> int:\n    return 1\n",
+    "staticmethod": "@staticmethod\ndef hook() -> int:\n    return 1\n",
+    "overload": "@overload\ndef hook(self, a: int) -> int: ...\n@overload\ndef hook(self, a: str) -> str: ...\ndef hook(self, a):\n    return a\n",
+    "decorated": "@deco\ndef hook(self) -> int:\n    return 1\n",
+}
+PLACEMENTS = ["module", "function", "method", "nested-function", "function-branch", "lambda-default"]
+
+
+def override_uninferred(base: str, override: str, placement: str) -> str:
+    """`check_method_override_for_base_with_name`: a method (of some kind) overrides an attribute of a base class whose type
+    is never inferred; the derived class sits at module level / in a function / in a method / …"""
+    derived = "class Local(Base):\n" + _indent(OVERRIDES[override], 4)
+    head = "from typing import overload\ndef deco(f):\n    return f\n\n" + UNINFERRED_BASES[base] + "\n"
+    if placement == "module":
+        return head + derived
+    if placement == "function":
+        return head + "def make() -> None:\n" + _indent(derived, 4) + "    Local()\n"
+    if placement == "method":
+        return head + "class Factory:\n    def make(self) -> None:\n" + _indent(derived, 8) + "        Local()\n"
+    if placement == "nested-function":
+        return head + "def outer() -> None:\n    def inner() -> None:\n" + _indent(derived, 8) + "    inner()\n"
+    if placement == "function-branch":
+        return head + "def make(flag: bool) -> None:\n    if flag:\n" + _indent(derived, 8) + "    else:\n        pass\n"
+    return head + "def make(f=lambda: 1) -> None:\n" + _indent(derived, 4) + "    x = [Local() for _ in range(2)]\n"
+
+
+def override_family() -> list[tuple[str, str]]:
+    return [(f"override-uninferred:{b}/{o}/{pl}", override_uninferred(b, o, pl))
+            for b in UNINFERRED_BASES for o in OVERRIDES for pl in PLACEMENTS]
+
+
+def undetermined_read_family() -> list[tuple[str, str]]:
+    """`handle_cannot_determine_type`: reads of variables / attributes whose type is never determined"""
+    out = [(f"defer-chain-{k}", defer_chain(k)) for k in range(0, 40, 3)]
+    out += [(f"defer-cycle-{k}", defer_cycle(k)) for k in range(1, 5)]
+    out.append(("undetermined-global", "def f() -> None:\n    reveal_type(g)\n\ng = h\nh = g\n"))
+    out.append(("undetermined-global-in-method", "class C:\n    def m(self) -> None:\n        reveal_type(g)\n\ng = h\nh = g\n"))
+    out.append(("undetermined-local-class", "def outer() -> None:\n" + _indent(defer_cycle(2, "L"), 4) + "    L().f0()\n"))
+    out.append(("undetermined-decorated", "def deco(f):\n    return f\n\nclass A:\n    @deco\n    def f0(self) -> None:\n"
+                                          "        reveal_type(self.x1)\n    def f1(self) -> None:\n        self.x1 = self.x1\n"))
+    return out
+
+
+# the table the harness uses when a defer site of checker.py loses its `pass_num < last_pass` guard:
+# enclosing function of the `self.defer_node(...)` call  ->  program family that reaches it
+DEFER_SITE_FAMILIES = {
+    "handle_cannot_determine_type": undetermined_read_family,
+    "check_method_override_for_base_with_name": override_family,
+}
+
+
+def defer_site_programs(functions: list[str]) -> list[tuple[str, str]]:
+    """programs for the given enclosing functions (unknown function: every family)"""
+    fams = []
+    for fn in functions:
+        fam = DEFER_SITE_FAMILIES.get(fn)
+        if fam is None:
+            fams = list(DEFER_SITE_FAMILIES.values())
+            break
+        if fam not in fams:
+            fams.append(fam)
+    out: list[tuple[str, str]] = []
+    for fam in fams:
+        out += fam()
+    return out
+
+
+# ------------------------------------------------------------------ partial types refined in nested places
+PARTIAL_INITS = [("[]", "list"), ("{}", "dict"), ("set()", "set"), ("None", "none"), ("dict()", "dict"), ("list()", "list")]
+WRAPPERS = ["[{S}]", "({S}, {V})[1]", "({S},)", "{0: {S}}", "[{S}, {V}]", "str({S})", "({S} or {V})", "[{S} for _ in range(2)]",
+            "{S}", "(lambda: {S})()", "[{V}, {S}][0]"]
+
+
+def _refine(var: str, kind: str, val: str, rng) -> str:
+    if kind == "list":
+        return rng.choice([f"{var}.append({val})", f"{var}.extend([{val}])", f"{var}.insert(0, {val})", f"{var} += [{val}]"])
+    if kind == "dict":
+        return rng.choice([f"{var}[{val}] = {val}", f"{var}.setdefault({val}, {val})", f"{var}.update({{{val}: {val}}})"])
+    if kind == "set":
+        return rng.choice([f"{var}.add({val})", f"{var}.update({{{val}}})", f"{var}.discard({val})"])
+    return rng.choice([f"{var} = {val}", f"{var} = [{val}]"])
+
+
+def partial_block(var: str, rng) -> str:
+    """a variable with a partial type and refinements of it — plain, in branches / loops / nested scopes, and *nested in
+    each other* (`x.append([x.append(1)])`: the argument of a refining call contains another refining call)"""
+    init, kind = rng.choice(PARTIAL_INITS)
+    val = rng.choice(["1", "'a'", "None", "1.5", "[1]", "(1, 'a')", var])
+    lines = [f"{var} = {init}"]
+    for _ in range(rng.randint(1, 4)):
+        stmt = _refine(var, kind, val, rng)
+        r = rng.random()
+        is_call = re.match(r"^[\w.]+\.\w+\(", stmt) is not None
+        if r < 0.55 and is_call:
+            # nested self-reference: an argument of the call is replaced by a wrapped copy of a refining call
+            inner = _refine(var, kind, rng.choice(["1", "'a'", val]), rng)
+            if re.match(r"^[\w.]+\.\w+\(", inner) is None:
+                inner = f"{var}.clear()"
+            w = rng.choice(WRAPPERS).replace("{S}", inner).replace("{V}", rng.choice(["'b'", "2", val]))
+            head, _sep, _tail = stmt.partition("(")
+            if kind == "dict" and ".update" in head:
+                w = "{1: " + w + "}"
+            elif ".extend" in head or ".update" in head:
+                w = "[" + w + "]"
+            stmt = f"{head}({'0, ' if '.insert' in head else ''}{w}" + (", " + w if ".setdefault" in head else "") + ")"
+        r = rng.random()
+        if r < 0.2:
+            stmt = f"if {rng.choice(['int()', 'True', var])}:\n    {stmt}\nelse:\n    {_refine(var, kind, 'None', rng)}"
+        elif r < 0.35:
+            stmt = f"for _i in range(2):\n    {stmt}"
+        elif r < 0.45:
+            stmt = f"try:\n    {stmt}\nfinally:\n    pass"
+        elif r < 0.55:
+            stmt = f"def _g_{var}() -> None:\n    {stmt}"
+        elif r < 0.62:
+            stmt = f"with open('f') as _f:\n    {stmt}"
+        elif r < 0.68:
+            stmt = f"_l_{var} = lambda: {stmt}" if (is_call and "\n" not in stmt) else stmt
+        lines.append(stmt)
+    lines.append(f"reveal_type({var})")
+    block = "\n".join(lines) + "\n"
+    r = rng.random()
+    if r < 0.4:
+        return f"def _scope_{var}() -> None:\n" + _indent(block, 4)
+    if r < 0.55:
+        return f"class _Scope_{var}:\n" + _indent(block, 4)
+    if r < 0.65:
+        return f"class _K_{var}:\n    def m(self) -> None:\n" + _indent(block.replace(f"{var} = ", f"self.{var} = ", 1).replace(f"{var}.", f"self.{var}."), 8)
+    return block
+
+
+# ------------------------------------------------------------------ multi-module projects with import cycles (daemon)
+def project(rng) -> tuple[dict[str, str], dict]:
+    """(files, meta) — `main.py` is the only entry point (imports are followed); it imports `a`, which starts an import
+    cycle a → b → (c →) a; a module may import itself; optionally a package whose `__init__` star-imports a submodule
+    that imports the package.  meta: {"imports": {file: [modules]}, "cycle": [files that sit on an import cycle]}"""
+    n = rng.choice([2, 2, 3])
+    cyc = ["a", "b", "c"][:n]
+    files: dict[str, str] = {}
+    imports: dict[str, list[str]] = {}
+    for i, m in enumerate(cyc):
+        nxt = cyc[(i + 1) % n]
+        imports[f"{m}.py"] = [nxt] + ([m] if rng.random() < 0.25 else [])
+        files[f"{m}.py"] = module_text(m, imports[f"{m}.py"], rng)
+    main_imports = ["a"]
+    cycle = [f"{m}.py" for m in cyc]
+    if rng.random() < 0.3:
+        imports["selfish.py"] = ["selfish"]
+        files["selfish.py"] = module_text("selfish", ["selfish"], rng)
+        main_imports.append("selfish")
+        cycle.append("selfish.py")
+    if rng.random() < 0.3:
+        files["pkg/__init__.py"] = "from pkg.sub import *\nfrom pkg import sub\n"
+        files["pkg/sub.py"] = "import pkg\n" + module_text("sub", [], rng)
+        main_imports.append("pkg")
+        cycle += ["pkg/__init__.py", "pkg/sub.py"]
+    files["main.py"] = "".join(f"import {m}\n" for m in main_imports) + "\nx: int = a.f_a()\nreveal_type(a.b.f_b)\n"
+    return files, {"imports": imports, "cycle": cycle}
+
+
+def project_step(files: dict[str, str], meta: dict, rng, mutate_fn, other: str) -> tuple[dict[str, str], list[str], list[str]]:
+    """one edit of the project between two daemon requests: (files to write, files to delete, labels).  Most steps edit two
+    or more members of an import cycle at once while the entry point stays as it is."""
+    cyc = [f for f in meta["cycle"] if f in files]
+    r = rng.random()
+    if r < 0.55 and len(cyc) >= 2:
+        targets = rng.sample(cyc, rng.choice([2, 2, min(3, len(cyc))]))
+        label = "edit-cycle-members"
+    elif r < 0.7 and cyc:
+        targets = [rng.choice(cyc)]
+        label = "edit-one-cycle-member"
+    elif r < 0.85:
+        targets = ["main.py"] + ([rng.choice(cyc)] if cyc and rng.random() < 0.5 else [])
+        label = "edit-entry-point"
+    else:
+        targets = rng.sample(sorted(files), min(len(files), rng.randint(1, 3)))
+        label = "edit-any"
+    write: dict[str, str] = {}
+    labels = [label]
+    for t in targets:
+        how = rng.random()
+        mod = t[:-3].split("/")[-1]
+        if how < 0.45 and t in meta["imports"]:
+            write[t] = module_text(mod, meta["imports"][t], rng)          # new signatures / bodies, same imports
+            labels.append("regenerate")
+        elif how < 0.6:
+            write[t] = files[t] + rng.choice([f"\n# touched {rng.randint(0, 999)}\n", f"\nextra_{rng.randint(0, 99)} = 1\n",
+                                               f"\nimport {mod if t != 'main.py' else 'main'}\n"])
+            labels.append("append")
+        elif how < 0.7 and t in meta["imports"]:
+            imps = list(meta["imports"][t])
+            if mod in imps:
+                imps.remove(mod)
+            else:
+                imps.append(mod)                                           # toggle the self-import
+            meta["imports"][t] = imps
+            write[t] = module_text(mod, imps, rng)
+            labels.append("toggle-self-import")
+        else:
+            k = rng.choice(["delete", "duplicate", "swap", "rename", "crosswire", "retype", "truncate", "nest", "cyclic"])
+            write[t] = mutate_fn(k, files[t], rng, other)
+            labels.append(k)
+    delete: list[str] = []
+    if rng.random() < 0.06 and cyc:
+        gone = rng.choice(cyc)
+        if gone not in write:
+            delete.append(gone)
+            labels.append("delete-module")
+    return write, delete, labels
+
+
+def module_text(name: str, imports: list[str], rng) -> str:
+    """a small module: functions / a class whose signatures vary with the rng, using what it imports"""
+    ret = rng.choice(["int", "str", "None", "list[int]", "'C_%s'" % name])
+    val = {"int": "1", "str": "'s'", "None": "None", "list[int]": "[1]"}.get(ret, f"C_{name}()")
+    style = rng.random()
+    head = "".join((f"import {m}\n" if style < 0.6 or m == name else f"from {m} import *\nimport {m}\n") for m in imports)
+    uses = "".join(f"    {m}.f_{m}()\n" for m in imports if m != name)
+    body = (f"def f_{name}() -> {ret}:\n{uses}    return {val}\n\n"
+            f"class C_{name}:\n    attr = {val}\n    def m(self, other: '{rng.choice(['int', 'C_' + name])}') -> {ret}:\n        return {val}\n\n"
+            f"def g_{name}(x: {rng.choice(['int', 'str', 'C_' + name])} = {rng.choice(['1', 'None', val])}) -> {rng.choice(['int', ret])}:\n"
+            f"    return {rng.choice([val, 'x', '1'])}\n")
+    if rng.random() < 0.3:
+        body += f"\nv_{name} = []\nv_{name}.append(f_{name}())\n"
+    return head + "\n" + body
 
 
 def _tname(rng, names: list[str]) -> str:
@@ -65,7 +309,8 @@ def program(rng) -> tuple[str, dict[str, str], str]:
     shape = []
     for nm in order:
         kind = rng.choice(["alias", "alias", "namedtuple", "typeddict", "dataclass", "class", "class", "protocol",
-                           "enum", "func", "newtype", "typevar", "generic", "final", "overload", "chain"])
+                           "enum", "func", "newtype", "typevar", "generic", "final", "overload", "chain",
+                           "partial", "partial", "override"])
         shape.append(kind)
         t = lambda: _tname(rng, names)  # noqa: E731
         if kind == "alias":
@@ -111,6 +356,15 @@ def program(rng) -> tuple[str, dict[str, str], str]:
         elif kind == "overload":
             body.append(f"@overload\ndef {nm}(a: int) -> {t()}: ...\n@overload\ndef {nm}(a: str) -> {t()}: ...\n"
                         f"def {nm}(a: Any) -> Any:\n    return {rng.choice(names)}")
+        elif kind == "partial":
+            body.append(partial_block("p_" + nm.lower(), rng).rstrip("\n"))
+        elif kind == "override":
+            b, o, pl = rng.choice(list(UNINFERRED_BASES)), rng.choice(list(OVERRIDES)), rng.choice(PLACEMENTS)
+            src = override_uninferred(b, o, pl)
+            # keep the names of several such blocks apart
+            for w in ("Base", "Local", "make", "Factory", "outer", "inner", "later", "deco"):
+                src = src.replace(w, f"{w}_{nm}")
+            body.append(src.replace("from typing import overload\n", "").rstrip("\n"))
         elif rng.random() < 0.7:
             body.append(defer_chain(rng.randint(1, 5), nm).rstrip("\n"))
         else:
